@@ -46,6 +46,7 @@ type Result struct {
 	Samples     []json.RawMessage `json:"samples"`
 	Violations  []Violation       `json:"violations"`
 	NViolations int64             `json:"n_violations"`
+	SigCounts   map[string]int64  `json:"sig_counts"`
 	Known       map[string]int64  `json:"known"`
 	KnownWhat   map[string]string `json:"known_what"`
 	Inconcl     []string          `json:"inconclusive"`
@@ -55,7 +56,7 @@ type Result struct {
 }
 
 const (
-	maxStoredViolations = 12
+	maxStoredViolations = 60
 	maxSamples          = 6
 	distinctCap         = 6_000_000
 	distinctShards      = 64
@@ -426,6 +427,10 @@ func (c *Ctx) Finish() {
 		WallS: time.Since(c.start).Seconds(), Done: true,
 	}
 	c.mu.Lock()
+	r.SigCounts = map[string]int64{}
+	for k, v := range c.violSigs {
+		r.SigCounts[k] = int64(v)
+	}
 	for k, v := range c.counters {
 		r.Counters[k] = v.Load()
 	}
